@@ -42,6 +42,8 @@ def parseOp (w : String) : Option Op :=
   | ["adv", f] => (natOf? f).map Op.advance
   | ["res", f, o] => do pure (Op.resume (← natOf? f) (← natOf? o))
   | ["push", o, l] => do pure (Op.push (← natOf? o) (← natOf? l))
+  | ["q", k] => (natOf? k).map fun _ => Op.nop          -- a read-only call
+  | ["peer", p] => (natOf? p).map fun _ => Op.nop       -- set_peer
   | _ => none
 
 def parseOps (s : String) : Option (List Op) :=
